@@ -4,7 +4,7 @@ use crate::cs::Cs;
 use crate::engine::*;
 use crate::layout::*;
 use crate::model::*;
-use crate::refclass::{layout, Layout};
+use crate::refclass::layout;
 use crate::rs::*;
 use crate::sweep;
 use rspirv::binary::ParseState;
